@@ -241,6 +241,20 @@ func checkC01(c *Ctx) {
 
 	// ---- D5
 	c.c01Ack(m)
+	// a store failure for any destination must make Deliver fail: the 2xx gate of D5 only
+	// sees Deliver's result
+	r.Rule("C01/ACK/store-error", "in Deliver no return reachable on the error edge of Store.AddMessage reports success: an acknowledged message was stored for every destination")
+	var ackFns []*ssa.Function
+	for fn := range p.SyncReach(deliver) {
+		if eng.FuncPkgPath(fn) == eng.FuncPkgPath(deliver) {
+			ackFns = append(ackFns, fn)
+		}
+	}
+	sortFuncs(ackFns)
+	nAdd := c.errNotSwallowedCalls("C01/ACK/store-error", ackFns, func(call *ssa.Call) (string, bool) {
+		return "Store.AddMessage", eng.IsCallTo(call.Common(), addObj)
+	}, false, "the transaction is acknowledged with 250 although a recipient's copy was not stored, and the client will not retry")
+	r.Floor("C01/ACK/store-error", "Store.AddMessage calls in Deliver", nAdd, 1)
 
 	// ---- D6
 	t := c.smtpTypestate(m)
